@@ -21,6 +21,7 @@ import (
 func init() { register("C04", "exploration", checkC04) }
 
 type xzSeed struct {
+	Multi   bool // several streams: only the universal part applies
 	ID      string
 	B       []byte
 	Content []byte
@@ -75,6 +76,17 @@ func c04Seeds(c *ev.Ctx) []xzSeed {
 				add(fmt.Sprintf("gen%d", i), stream, content, clipStr(feat, 160))
 				break
 			}
+		}
+	}
+	// multi-stream seeds (universal part only): damage behind the first stream
+	for i := 0; i < 2; i++ {
+		d1, d2 := gen.Data(r, "text", r.Range(50, 300)), gen.Data(r, "lowent", r.Range(50, 300))
+		b := libWriteXZ(xz.WriterConfig{DictCap: 4096, CheckSum: xz.CRC32}, d1)
+		b = append(b, make([]byte, 4*i)...)
+		b = append(b, libWriteXZ(xz.WriterConfig{DictCap: 4096, CheckSum: xz.CRC64}, d2)...)
+		content := append(append([]byte{}, d1...), d2...)
+		if o, ss, err := ref.DecodeXZ(b, 0); err == nil && len(ss) == 2 && bytes.Equal(o, content) {
+			out = append(out, xzSeed{Multi: true, ID: fmt.Sprintf("multi%d", i), B: b, Content: content, S: ss[0], Check: ss[0].Check, Feat: "two streams"})
 		}
 	}
 	names, _ := loadCorpus(c, "xz")
@@ -376,6 +388,9 @@ func checkC04(c *ev.Ctx) {
 	for i := range seeds {
 		s := &seeds[i]
 		for ei, e := range edits {
+			if s.Multi {
+				break
+			}
 			nb := 1
 			if e.PerBlock {
 				nb = len(s.S.Blocks)
@@ -483,6 +498,15 @@ func checkC04(c *ev.Ctx) {
 				c.Count("edits_rejected", 1)
 			}
 			return
+		}
+		if clean && !bytes.Equal(out, s.Content) && s.Multi {
+			// a multi-stream file from which whole streams (or whole 4-byte padding groups)
+			// were removed is itself a valid file: no format without a global check can
+			// notice that.  Exempt exactly when the strict reference accepts the file too.
+			if ro, _, rerr := ref.DecodeXZ(mod, 0); rerr == nil && bytes.Equal(ro, out) {
+				c.Count("multistream_modification_yields_valid_file", 1)
+				return
+			}
 		}
 		if clean && !bytes.Equal(out, s.Content) {
 			det["what"] = fmt.Sprintf("%s at %d: stream with check %d decodes cleanly to %d bytes differing from the original %d bytes (first difference %d)", j.kind, j.arg, s.Check, len(out), len(s.Content), firstDiff(out, s.Content))
